@@ -12,7 +12,7 @@ from .source import (MissingFunction, Module, OutOfSubset, dotted_to_relpath, fi
                      load_module, loops_in, strip_docstring)
 from .spec import SPECS, Spec
 from .values import (V, VBool, VBound, VClosure, VInt, VMatch, VNone, VObj, VOpaque, VOptInt, VPy, VRec, VRef,
-                     VSeq, VStr, VStrJoin, VTuple, is_concrete_bool)
+                     VArr, VSeq, VStr, VStrJoin, VTuple, is_concrete_bool)
 
 BUILTIN_NAMES = {
     "len", "isinstance", "cast", "str", "int", "bool", "list", "tuple", "next", "any", "all",
@@ -38,6 +38,39 @@ def S(s):
 
 def I(n):
     return z3.IntVal(n)
+
+
+def _has_quant_term(t):
+    stack, seen = [t], set()
+    while stack:
+        x = stack.pop()
+        if x.get_id() in seen:
+            continue
+        seen.add(x.get_id())
+        if z3.is_quantifier(x):
+            return True
+        stack.extend(x.children())
+    return False
+
+
+def _mentions(f, const, _seen=None):
+    """Does the z3 term `f` contain the constant `const`?"""
+    cid = const.get_id()
+    stack = [f]
+    seen = set()
+    while stack:
+        t = stack.pop()
+        i = t.get_id()
+        if i in seen:
+            continue
+        seen.add(i)
+        if i == cid:
+            return True
+        if z3.is_quantifier(t):
+            stack.append(t.body())
+        else:
+            stack.extend(t.children())
+    return False
 
 
 class Evaluator:
@@ -95,6 +128,11 @@ class Evaluator:
             nn = p.fresh(base + ".n", z3.IntSort())
             p.assume(nn >= 0, check=False)
             return VStrJoin(p.fresh(base + ".joined", z3.StringSort()), nn)
+        if n == "Arr":
+            kind = t.args[0]
+            ln = p.fresh(base + ".len", z3.IntSort())
+            p.assume(ln >= 0, check=False)
+            return VArr(p.fresh(base, z3.ArraySort(z3.IntSort(), ty.kind_sort(kind))), I(0), ln, kind)
         if n == "Rec":
             cls = t.args[0]
             dt, fields = ty.record(cls)
@@ -102,7 +140,9 @@ class Evaluator:
         if n == "Ref":
             return self.heap.fresh_ref(base, t.args[0])
         if n == "ListRef":
-            return self.heap.fresh_ref(base, "list")
+            r = self.heap.fresh_ref(base, "list")
+            r.elem = t.args[0]
+            return r
         if n == "Opaque":
             return VOpaque(p.fresh(base, z3.IntSort()))
         if n == "Lit":
@@ -163,7 +203,7 @@ class Evaluator:
             return z3.Length(v.t) > 0
         if isinstance(v, VSeq):
             return z3.Length(v.t) > 0
-        if isinstance(v, VStrJoin):
+        if isinstance(v, (VStrJoin, VArr)):
             return v.n > 0
         if isinstance(v, VNone):
             return z3.BoolVal(False)
@@ -418,6 +458,10 @@ class Evaluator:
             return VSeq(z3.Concat(*us) if len(us) > 1 else us[0], items[0].cls)
         if all(isinstance(x, (VRef, VNone)) for x in items):
             return self.heap.new_list(items)
+        if all(isinstance(x, VTuple) and 1 <= len(x.items) <= 3 and all(isinstance(self.lift(y), (VRef, VNone)) for y in x.items) for x in items):
+            r = self.heap.new_list(items)  # tuples of references are boxed (heap.as_ref)
+            r.elem = "tuple"
+            return r
         self.oos(node, "list literal of mixed shapes")
 
     def ev_JoinedStr(self, node, env):
@@ -698,6 +742,11 @@ class Evaluator:
                     self.path.prefix_slices.setdefault(base.t.get_id(), []).append((base.t, z3.simplify(n)))
                 return VStr(t, is_bytes=base.is_bytes)
             return VSeq(t, base.kind)
+        if isinstance(base, VArr):
+            a = self.norm_index(lo.t, base.n) if lo is not None else I(0)
+            b = self.norm_index(hi.t, base.n) if hi is not None else base.n
+            n = z3.simplify(z3.If(b >= a, b - a, I(0)))
+            return VArr(base.arr, z3.simplify(base.off + a), n, base.kind)
         if isinstance(base, VTuple):
             lo_i = self.const_int(lo) if lo is not None else None
             hi_i = self.const_int(hi) if hi is not None else None
@@ -748,6 +797,19 @@ class Evaluator:
                     return VInt(z3.StrToCode(t))
                 return VStr(t, is_char=True)
             return self.E.wrap_kind(base.kind, base.t[pos])
+        if isinstance(base, VArr) and isinstance(idx, VInt):
+            length = base.n
+            s = z3.simplify(idx.t)
+            if z3.is_int_value(s) and s.as_long() < 0:
+                pos, ok = length + s, length >= -s.as_long()
+            elif z3.is_int_value(s) or self.path.entails_quick(idx.t >= 0):
+                pos, ok = idx.t, idx.t < length
+            else:
+                pos, ok = z3.If(idx.t < 0, idx.t + length, idx.t), z3.And(idx.t < length, idx.t >= -length)
+            if not self.pure:
+                self.ctx.oblige(self.path, "index-bounds", f"L{getattr(node, 'lineno', 0)}:{ast.unparse(node) if node is not None else ''}", ok, node)
+                self.path.assume(ok, check=False)
+            return self.E.wrap_kind(base.kind, base.arr[z3.simplify(base.off + pos)])
         if isinstance(base, VRef):
             return self.heap.subscript(base, idx, node)
         if isinstance(base, VOpaque) and isinstance(idx, VInt):
@@ -986,6 +1048,8 @@ class Evaluator:
             return z3.Length(it.t), (lambda i: (VInt(z3.StrToCode(z3.SubString(it.t, i, 1))) if it.is_bytes else VStr(z3.SubString(it.t, i, 1), is_char=True)))
         if isinstance(it, VSeq):
             return z3.Length(it.t), (lambda i: self.E.wrap_kind(it.kind, it.t[i]))
+        if isinstance(it, VArr):
+            return it.n, (lambda i: self.E.wrap_kind(it.kind, it.arr[z3.simplify(it.off + i)]))
         if isinstance(it, VRef):
             return self.heap.iter_source(it, node)
         if isinstance(it, VPy) and isinstance(it.obj, tuple):
@@ -1062,8 +1126,28 @@ class Evaluator:
                 self.bind_target(g.target, el(j), e2, node)
             for c in g.ifs:
                 rngs.append(sub.truth(sub.ev(c, e2)))
-        body = sub.truth(sub.ev(gen.elt, e2))
+        n_ax, n_pc = len(self.path.axioms), len(self.path.pc)
         rng = z3.And(*rngs)
+        # the body is translated under its range (so that e.g. `xs[k]` with k in range(n) is known to be a
+        # non-negative index and needs no Python negative-index normalisation)
+        self.path.solver.push()
+        try:
+            if not _has_quant_term(rng):
+                self.path.solver.add(rng)
+            body = sub.truth(sub.ev(gen.elt, e2))
+        finally:
+            self.path.solver.pop()
+        # definitional axioms instantiated while translating the body (characterisations of spec functions) mention the
+        # bound variables: they hold for every value of them, so they are generalised (with the registered trigger) -
+        # stated only for the arbitrary constant they would be useless inside the quantifier
+        for fact in self.path.axioms[n_ax:]:
+            used = [b for b in bound if _mentions(fact, b)]
+            trig = self.path.triggers.get(fact.get_id())
+            if used and trig is not None and all(_mentions(trig, b) for b in used):
+                try:
+                    self.path.axioms.append(z3.ForAll(used, fact, patterns=[trig]))
+                except z3.Z3Exception:
+                    pass  # not usable as a pattern (contains ite / arithmetic at the top): the fact stays un-generalised
         if which == "any":
             return VBool(z3.Exists(bound, z3.And(rng, body)))
         return VBool(z3.ForAll(bound, z3.Implies(rng, body)))
@@ -1123,7 +1207,7 @@ class Evaluator:
             a = args[0]
             if isinstance(a, (VStr, VSeq)):
                 return VInt(z3.Length(a.t))
-            if isinstance(a, VStrJoin):
+            if isinstance(a, (VStrJoin, VArr)):
                 return VInt(a.n)
             if isinstance(a, VTuple):
                 return VInt(I(len(a.items)))
@@ -1181,7 +1265,7 @@ class Evaluator:
             a = args[0]
             if isinstance(a, VTuple):
                 return a if name == "tuple" else self.list_from_items(a.items, node) if a.items else VPy(("emptylist",))
-            if isinstance(a, (VSeq, VStrJoin)):
+            if isinstance(a, (VSeq, VStrJoin, VArr)):
                 return a
             if isinstance(a, VRef):
                 return self.heap.list_copy(a, node, as_tuple=(name == "tuple"))
